@@ -98,7 +98,7 @@ func c05InScope(wire string, f c05Filters, res []*regexp.Regexp) (bool, string) 
 func c05GenFilters(r *rand.Rand) c05Filters {
 	var f c05Filters
 	hostBits := []string{"a.example", "b-site", "cdn.c", "example.org", "d.example:8080", "deep", "xn--", ".example", "e.example", "g.example"}
-	strBits := []string{"/img", "x.png", "?id=", "utm_", "https://", "index", "/v1/", "%20", "a=1", ".js", "~t", "/css/y.js"}
+	strBits := []string{"/img", "x.png", "?id=", "utm_", "https://", "index", "/v1/", "%20", "a=1", ".js", "~t", "/css/y.js", "a+b", "%2C", "p%2Fq", "=x%2Cy", "64%3A64"}
 	reBits := []string{`\.png$`, `^https://www\.`, `[?&]page=\d*`, `/(css|img)/`, `example\.org`, `(?i)INDEX\.HTML`, `\d{2,}`, `//[^/]*:8080/`}
 	pickN := func(src []string, max int) []string {
 		n := r.Intn(max + 1)
@@ -167,10 +167,25 @@ func c05Child(scPath string) int {
 			parents = append(parents, p.String())
 		}
 	}
+	// query values whose spelling changes when the crawler re-encodes the query (space, %20, comma,
+	// slash, colon): the filters must see the text that goes on the wire
+	oddQuery := func() string {
+		var ps []string
+		for k := 0; k < 1+rng.Intn(3); k++ {
+			ps = append(ps, pick(rng, genKeys)+"="+pick(rng, []string{"a%20b", "a b", "x,y", "p/q", "64:64,smart", "v", "1", "c%2Cd", "a+b"}))
+		}
+		return strings.Join(ps, "&")
+	}
 	genText := func() string {
-		switch rng.Intn(10) {
+		switch rng.Intn(11) {
 		case 0, 1, 2:
 			return genWFAbsolute(rng).String()
+		case 10:
+			if rng.Intn(2) == 0 {
+				u := genWFAbsolute(rng)
+				return u.Scheme + "://" + u.Host + u.Path + "?" + oddQuery()
+			}
+			return genPath(rng, 3, false, rng.Intn(2) == 0) + "?" + oddQuery()
 		case 3:
 			return genPath(rng, 4, true, rng.Intn(2) == 0) // relative (meaningful under a parent)
 		case 4:
